@@ -42,10 +42,10 @@ def run(model, res, tier):
     res.trusted += ['hxsa abstract interpreter and builtin models', 'CPython ast']
     acts = roles.binary_actions(g)
     opaque = H.date_opaque(model)
-    _r1(model, res, c, g, acts, opaque)
-    _r2(model, res, c, g, opaque)
-    _r3(model, res, c, g, opaque)
-    _r4(model, res, c, opaque)
+    H.safely(res, 'R1', 'r1', _r1, model, res, c, g, acts, opaque)
+    H.safely(res, 'R2', 'r2', _r2, model, res, c, g, opaque)
+    H.safely(res, 'R3', 'r3', _r3, model, res, c, g, opaque)
+    H.safely(res, 'R4', 'r4', _r4, model, res, c, opaque)
     from . import c11
     H.borrow(res, 'R6', 'aggregates with an error item', lambda tmp: c11._r1(model, tmp))
     keys = []
